@@ -1,6 +1,6 @@
 ---------------------- MODULE ProblemKindLatticeUpgrade ----------------------
 (***************************************************************************)
-(* T1 of C33 on the WHOLE upgrade tables.                                  *)
+(* C33 on the WHOLE upgrade tables ("cover stage").                        *)
 (*                                                                         *)
 (* The all-pairs configuration (MCProblemKindLattice) needs small feature  *)
 (* universes (NK^2 pairs of kinds).  The laws that constrain the upgrade   *)
@@ -13,35 +13,53 @@
 (* entry in an upgrade table occurs in some kind.                          *)
 (*                                                                         *)
 (* Case space: the covering pairs of the subset order.  Object 1 is a kind *)
-(* a = (v, F) of a version v < Latest, object 2 is b = (v, F \cup {g}) for *)
-(* one more feature g available in v.  The laws are ProblemKindLattice's   *)
-(* own (no new law), taken in both directions:                             *)
+(* a = (v, F) of a version v < Latest with F over CoverFeat[v], object 2   *)
+(* is b = (v, F \cup {g}) for one more feature g of CoverFeat[v].  The     *)
+(* laws are ProblemKindLattice's own (no new law), in both directions:     *)
 (*    UpgradeMonotone(a, b)   a <= b always holds here                     *)
 (*    UpgradeMonotone(b, a)   b <= a holds iff g does not count in v       *)
 (*                            (deprecated): the kinds are then Eq and must *)
 (*                            stay indistinguishable after upgrading       *)
-(* Covering pairs suffice.  Let a <= b be kinds of version v, i.e.         *)
-(* Norm(a) \subseteq Norm(b).  Walk from a to b one feature at a time:     *)
-(* drop the features of a that do not count in v (steps (x+g, x), g not    *)
-(* valid: both directions hold), add the features of Norm(b) \ Norm(a),    *)
-(* add the features of b that do not count.  Every step is a covering pair *)
-(* x <= y with Den(Lift(x, w)) \subseteq Den(Lift(y, w)) for every w;      *)
-(* inclusions compose, hence Le(Lift(a, w), Lift(b, w)).  A kind with      *)
-(* version=None behaves in Le / Lift / Norm as the kind with its computed  *)
-(* version declared, so declared versions are enough.                      *)
+(* Covering pairs suffice.  Let a <= b be kinds of version v over          *)
+(* CoverFeat[v], i.e. Norm(a) \subseteq Norm(b).  Walk from a to b one     *)
+(* feature at a time: drop the features of a that do not count in v (steps *)
+(* (x+g, x), g not valid: both directions hold), add the features of       *)
+(* Norm(b) \ Norm(a), add the features of b that do not count.  Every step *)
+(* is a covering pair x <= y with Den(Lift(x, w)) \subseteq                *)
+(* Den(Lift(y, w)) for every w; inclusions compose, hence                  *)
+(* Le(Lift(a, w), Lift(b, w)).  A kind with version=None behaves in Le /   *)
+(* Lift / Norm as the kind with its computed version declared, so declared *)
+(* versions are enough.                                                    *)
 (*                                                                         *)
 (* Deliberately NOT demanded: Up[v][F \cup G] = Up[v][F] \cup Up[v][G].    *)
 (* The statement asks for an order-preserving upgrade, not for a union     *)
 (* homomorphism, and a conjunctive rule (two version-1 features that       *)
 (* together yield a version-2 feature) is monotone without being one.      *)
+(*                                                                         *)
+(* Binding to the objects (HasObs): for every covering pair the driver     *)
+(* builds real ProblemKind objects and tabulates (like the upgrade tables: *)
+(* for every case of the space, nothing selected in Python)                *)
+(*    a <= b, b <= a,                                                      *)
+(*    and for every later version w, with a_w / b_w the kinds upgraded to  *)
+(*    w: a_w <= b_w, b_w <= a_w, a <= b_w, b_w <= a.                       *)
+(* The recorded values are compared with the specification's Le, and the   *)
+(* law is checked on the recorded values alone                             *)
+(* (impl-upgrade-preserves-le).                                            *)
+(*                                                                         *)
+(* Verdicts are total: failed clauses are printed by an invariant that is  *)
+(* always TRUE, <<"FAIL", v, mask of a, mask of b, clause, detail>>.       *)
 (***************************************************************************)
 EXTENDS ProblemKindLatticeUpgradeTables, ProblemKindLattice   \* tables first: see there
 
-CONSTANT CoverFeat   \* [1..Latest-1 -> SUBSET Feat]: the features the enumerated kinds of version v are made of
-                     \* (thorough: every feature of the universe available in v; quick: those the upgrade
+CONSTANTS CoverSeq,  \* [1..Latest-1 -> Seq(Feat)]: the features the enumerated kinds of version v are made of
+                     \* (full: every feature of the universe available in v; otherwise those the upgrade
                      \* function of v reads or removes and those that do not count in v -- the others pass
                      \* through that function unchanged and unnoticed, as far as the driver's probes can tell)
+          HasObs,    \* TRUE: Obs holds the results recorded on real objects
+          Obs        \* Obs[v][index of F][position of g] = <<status, a<=b, b<=a, (a_w<=b_w, b_w<=a_w, a<=b_w, b_w<=a : w)>>
 Below == 1..(Latest - 1)
+CoverFeat == TLCEval([v \in Below |-> {CoverSeq[v][j] : j \in DOMAIN CoverSeq[v]}])
+
 \* ProblemKind(F, version=v) for every version that can still be upgraded and every F over CoverFeat[v]
 NewFirst  == /\ live = {}     \* (guard first: TLC would otherwise enumerate the subsets in every state)
              /\ \E v \in Below : \E F \in SUBSET CoverFeat[v] : New(1, [dv |-> v, f |-> F])
@@ -52,16 +70,48 @@ NewSecond == /\ live = {1}
 CoverNext == NewFirst \/ NewSecond
 CoverSpec == Init /\ [][CoverNext]_vars
 
-LawUpgradeCover == Both => /\ Le(A1, A2)
-                           /\ UpgradeMonotone(A1, A2)
-                           /\ UpgradeMonotone(A2, A1)
-\* LawTables (UpgradeWF of object 1) is ProblemKindLattice's
+-----------------------------------------------------------------------------
+(* the laws on the real tables *)
+GTag(a, g) == IF g \in Valid(a.dv) THEN "added-feature-counts" ELSE "added-feature-deprecated"
+LawFails(a, b, g) ==
+   (IF Le(a, b) /\ UpgradeMonotone(a, b) THEN {} ELSE {<<"T1-LawUpgradeCover", GTag(a, g)>>})
+   \cup (IF UpgradeMonotone(b, a) THEN {} ELSE {<<"T1-LawUpgradeCover", "equal-kinds-differ-after-upgrade">>})
+TableFails(a) == IF UpgradeWF(a) THEN {} ELSE {<<"T1-LawTables", "upgraded-kind-malformed">>}
+
+(* the recorded results *)
+B2I(x) == IF x THEN 1 ELSE 0
+RECURSIVE IdxFrom(_, _, _)
+IdxFrom(s, F, j) == IF j > Len(s) THEN 0 ELSE (IF s[j] \in F THEN 2 ^ (j - 1) ELSE 0) + IdxFrom(s, F, j + 1)
+ObsOf(a, g) == LET s == CoverSeq[a.dv] IN Obs[a.dv][IdxFrom(s, a.f, 1) + 1][CHOOSE j \in DOMAIN s : s[j] = g]
+ObsFails(a, b, g) ==
+   LET o == ObsOf(a, g)  v == a.dv
+       At(w, t) == o[3 + 4 * (w - v - 1) + t]       \* t = 1..4
+   IN
+   IF Len(o) # 3 + 4 * (Latest - v) THEN {<<"cover-record-malformed", "">>}
+   ELSE IF o[1] # 0 THEN {<<"cover-raises", "">>}
+   ELSE (IF o[2] # B2I(Le(a, b)) \/ o[3] # B2I(Le(b, a)) THEN {<<"cover-le", "same-version">>} ELSE {})
+        \cup UNION {
+             (IF At(w, 1) # B2I(Le(Lift(a, w), Lift(b, w))) \/ At(w, 2) # B2I(Le(Lift(b, w), Lift(a, w)))
+              THEN {<<"cover-le-of-upgraded", "same-version">>} ELSE {})
+             \cup (IF At(w, 3) # B2I(Le(a, Lift(b, w))) \/ At(w, 4) # B2I(Le(Lift(b, w), a))
+                   THEN {<<"cover-le", "different-versions">>} ELSE {})
+             \cup (IF (o[2] = 1 /\ At(w, 1) # 1) \/ (o[3] = 1 /\ At(w, 2) # 1)
+                   THEN {<<"cover-impl-upgrade-preserves-le", GTag(a, g)>>} ELSE {})
+             \cup (IF (o[2] = 1 /\ At(w, 3) # 1) THEN {<<"cover-impl-le-lost-across-versions", GTag(a, g)>>} ELSE {})
+             : w \in (v + 1)..Latest }
+
+Fails == IF live = {1} THEN TableFails(A1)
+         ELSE IF Both THEN LET g == CHOOSE g \in A2.f \ A1.f : TRUE IN
+                           LawFails(A1, A2, g) \cup (IF HasObs THEN ObsFails(A1, A2, g) ELSE {})
+         ELSE {}
+CoverVerdict == \A x \in Fails :
+                   PrintT(<<"FAIL", A1.dv, CMaskOf(A1.f), IF Both THEN CMaskOf(A2.f) ELSE CMaskOf(A1.f), x[1], x[2]>>)
 
 \* number of states the driver expects: 1 + kinds + covering pairs
-NAvail(v) == Cardinality(CoverFeat[v])
+NCover(v) == Len(CoverSeq[v])
 RECURSIVE CoverUpTo(_)
 CoverUpTo(v) == IF v = 0 THEN 0
-                ELSE CoverUpTo(v - 1) + (2 ^ NAvail(v)) + (NAvail(v) * (2 ^ NAvail(v))) \div 2
+                ELSE CoverUpTo(v - 1) + (2 ^ NCover(v)) + (NCover(v) * (2 ^ NCover(v))) \div 2
 CoverCount == 1 + CoverUpTo(Latest - 1)
 ASSUME PrintT(<<"COVER", CoverCount>>)
 =============================================================================
